@@ -72,8 +72,10 @@ def static_refs(body):
     return out
 
 
-def reachable(bodies, roots, stop=None):
-    """-> (set of reachable body keys, list of (caller, callee json, span) for calls without a body)"""
+def reachable(bodies, roots, stop=None, tys=None):
+    """-> (set of reachable body keys, list of (caller, callee json, span) for calls without a body).
+    With the type table, a closure is followed into the body of its instantiation (the enclosing function's generic
+    arguments applied) rather than into every body of that closure"""
     seen = set()
     stack = [r for r in roots if r in bodies]
     leaves = []
@@ -99,12 +101,22 @@ def reachable(bodies, roots, stop=None):
         for _, s in iter_stmts(b):
             if s[0] == "a" and s[2][0] == "agg" and s[2][1].get("k") == "closure":
                 d = s[2][1]["def"]
+                inst = tys[s[2][1]["ty"]].get("body") if tys is not None and "ty" in s[2][1] else None
+                if inst in bodies:
+                    stack.append(inst)
+                    continue
                 for kk, bb in bodies.items():
                     if bb["def"] == d:
                         stack.append(kk)
         for c, sp in const_operands(b):
             if "fn" in c and c["fn"].get("res") in bodies:
                 stack.append(c["fn"]["res"])
+            if tys is not None and "zst" in c and isinstance(c.get("ty"), int) and tys[c["ty"]]["k"] == "closure":
+                inst = tys[c["ty"]].get("body")
+                if inst in bodies:
+                    stack.append(inst)
+                else:
+                    stack.extend(kk for kk, bb in bodies.items() if bb["def"] == tys[c["ty"]]["def"])
         # vtable methods of trait objects created here
         for _, s in iter_stmts(b):
             if s[0] == "a" and s[2][0] == "cast" and len(s[2]) > 4:
